@@ -89,6 +89,7 @@ int main(int argc, char **argv) {
 	Snap base, now; long fdbase[5] = { 0, 0, 0, 0, 0 }; unsigned long mark;
 	vh_seed(&r, (uint64_t)vh_argi(argc, argv, "--seed", 1) * 6364136223846793005ULL);
 	if (vh_flag(argc, argv, "--list")) { for (i = 0; i < NSC; i++) puts(SC[i].name); return 0; }
+	(void)vh_private_net();
 	prepare_files();
 	vt = va_vtable();
 	p_libsys_init_full(&vt);
